@@ -97,6 +97,8 @@ def curve_set(draw, n_curves=(1, 3), n_points=(3, 7), noise=True, bases=("weight
         temps.append(temps[-1] + 7.0)
     if nc > 1 and draw(st.integers(0, 4)) == 0:
         temps = [temps[0]] * nc  # several curves measured at ONE temperature (still a multi-curve set)
+    elif nc > 1 and draw(st.booleans()):
+        temps.reverse()  # curves listed hottest first (the order of a curve set carries no meaning)
     npts = draw(st.integers(*n_points))
     curves = []
     for t in temps:
